@@ -152,11 +152,19 @@ class Prop(common.PropertyCheck):
             c.update({'tperm': True, 'nev': 3, 'dt': ['I', 'F'][i % 2]})
             yield c
 
+        # channels whose names begin with or contain "time" without being the time channel (Timer, Time-MSW, TIMESTAMP-LO, Lifetime)
+        for i in range(self.budget(24, 200)):
+            c = self.make_case(rng, ['$TIMESTEP', '$BTIM', '$ETIM'] + [o for o in ('$DATE', 'TIMETICKS') if rng.random() < 0.5], timech=[None, 'Time', None, 'TIME'][i % 4])
+            c.update({'time_like': ['Timer', 'Time-MSW', 'TIMESTAMP-LO', 'Lifetime', 'time2', 'Time '][i % 6], 'nev': 3})
+            yield c
+
     def spec_of(self, case):
         import random
         r = random.Random(case['seed'])
         D = case.get('D', 3)
         names = ['FSC-H', 'FL1-H', 'FL2-H'] + ['X%d-A' % k for k in range(4, D + 1)]
+        if case.get('time_like'):
+            names[1] = case['time_like']          # a channel whose name merely begins with / contains "time": not the time channel
         if case['timech'] == 'two':
             names = ['Time', 'FL1-H', 'TIME'] + names[3:]
         elif case['timech']:
